@@ -22,7 +22,7 @@
 -/
 import CatVerif.Proofs.RingInvP
 import CatVerif.Proofs.Fifo
-import CatVerif.Proofs.Steps
+import CatVerif.Proofs.Steps.Ring
 namespace Cat
 open St
 
